@@ -91,6 +91,7 @@ UNIT = {
         'reference-count mode (cache_counts and incoming_counts present, is_in_cache/is_reachable null) - the mark-and-sweep branches are not covered',
         'free-list shape: every handle on a_unused[] lists that is <= a_last is a deleted handle with cache count 0 (local footprint, precondition of getFreeNodeHandle); list acyclicity (termination of the discard loop) assumed',
     ],
+    'unverified_surroundings': {'C06': ['node_headers::expandHandleList/shrinkHandleList (assumed stubs: array resizing proved in U-cnt, free-list cleaning loop not verified)', 'mark-and-sweep configuration (no reference counts)'], 'C07': ['storage/ct_styles.cc compute tables: find/addEntry/deleteEntry/removeStales call cacheNode/uncacheNode/isDeadEntry; not under contract']},
     'jobs': [
         job('bytesRequiredForDown', 'bytesRequiredForDown'),
         job('unlinkNode', 'node_headers__unlinkNode', ARRS + ['node_headers__lastUnlink']),
